@@ -34,6 +34,34 @@ def run(ctx):
     nm = 6 if ctx.tier == "quick" else 60
     total, wbad, samples = nolint_suite.run_suite(ctx, nm)
     ctx.obligation("whole tool: %d expectations over %d generated modules (nolint spellings and placements, grouping on/off, cross-package report into a nolinted upstream line)" % (total, nm), total > 0 and not wbad)
+    # known finding F33: under `go vet -vettool` (one process per package, started in the package's directory) file names
+    # are relative to a different directory in every unit, so a nolint range of a/x.go also covers b/x.go
+    import os
+    import shutil
+    kfd = os.path.join(common.VERIF, "corpus", "c11kf")
+    env = dict(common.GOENV)
+    env.pop("GOFLAGS", None)
+
+    def vet_reports(d):
+        rc, out, err = common.sh2(["go", "vet", "-vettool=" + os.path.join(common.BIN, "nilaway"), "-pretty-print=false", "./..."], cwd=d, env=env, timeout=600)
+        return "x.go:12" in out + err, (out + err)[-400:]
+    tmpd = ctx.scratch()
+    try:
+        shutil.copytree(kfd, os.path.join(tmpd, "ctl"))
+        ax = os.path.join(tmpd, "ctl", "a", "x.go")
+        txt = open(ax).read().replace("//nolint:nilaway", "// (no suppression here)")
+        open(ax, "w").write(txt)
+        hidden, text = vet_reports(kfd)
+        shown_ctl, text2 = vet_reports(os.path.join(tmpd, "ctl"))
+    finally:
+        shutil.rmtree(tmpd, ignore_errors=True)
+    f33 = [k for k in ctx.known_for() if k["id"] == "F33"]
+    if shown_ctl and not hidden:
+        if f33:
+            ctx.known_finding("F33", f33[0]["what"][:200] + " -- still hidden under go vet (corpus/c11kf)")
+        else:
+            ctx.violation("govet-nolint", "C11 fails under go vet -vettool: the nolint comment of a/x.go hides the diagnostic of b/x.go:12 (corpus/c11kf); without the comment it is reported\n%s" % text)
+    ctx.obligation("go vet -vettool on corpus/c11kf: the control without the nolint comment reports b/x.go:12", shown_ctl)
     ctx.coverage.update({"evaluations": len(res["cases"]) * 2 + total, "distinct_nontrivial": len(nontriv),
                          "rule": "synthetic conflict sets (1-9 conflicts, shared/unshared nil sources, 0-3 nolint ranges, grouping on/off, test-file filter); "
                                  "non-trivial = some conflict suppressed and some not; distinct by case line; plus generated Go modules through the whole tool"})
